@@ -201,6 +201,27 @@ Definition shift_data (t : T) (l : list T) : list T := map (fun x => (x + t)%num
 Definition rotate_data {B} (k : nat) (l : list B) : list B := skipn k l ++ firstn k l.
 Definition scale_values (p : T) (d : list (T * T)) : list (T * T) := map (fun q => ((p * fst q)%num, snd q)) d.
 Definition scale_weights (p : T) (d : list (T * T)) : list (T * T) := map (fun q => (fst q, (p * snd q)%num)) d.
+Definition shift_values (t : T) (d : list (T * T)) : list (T * T) := map (fun q => ((fst q + t)%num, snd q)) d.
+
+(** One data vector used for several statistics, one after the other (an object history).  Arithmetic_Mean, Variance and
+    Standard_Deviation take the vector by const reference and leave it alone; Median takes it by non-const reference and
+    reorders it (std::nth_element; [sort_list] is the canonical representative of the permutation it leaves).  The state of
+    a history is the vector, the outputs are the answers in the order of the calls. *)
+Inductive stat_op : Type := OpMean | OpVariance | OpStddev | OpMedian.
+Definition stat_answer (o : stat_op) (l : list T) : T :=
+  match o with
+  | OpMean => arithmetic_mean l
+  | OpVariance => variance l
+  | OpStddev => standard_deviation l
+  | OpMedian => median l
+  end.
+Definition stat_step (st : list T * list T) (o : stat_op) : list T * list T :=
+  let '(l, outs) := st in
+  match o with
+  | OpMedian => let '(m, l') := median_state l in (l', outs ++ [m])
+  | _ => (l, outs ++ [stat_answer o l])
+  end.
+Definition stat_history (l : list T) (ops : list stat_op) : list T * list T := fold_left stat_step ops (l, []).
 End Num.
 
 (** Sessions: several requests answered one after the other in one process.  No helper of this property reads the
